@@ -50,7 +50,7 @@ theorem ev_ident_pair {n : String} {r : Rule} (hR : RuleOk n r) {q : Nat} {t : L
 -- ------------------------------------------------------------------ arguments as a reader
 
 def bArgs (F : ValFam) : Bld (List (Name × PValue)) := fun s₀ ps as =>
-  ∃ pr, ps = [pr] ∧ pr.rule = asName F ∧ (finFs as = true → buildArgs (envOf s₀) pr = .ok (normFs as))
+  ∃ pr, ps = [pr] ∧ pr.rule = asName F ∧ buildArgs (envOf s₀) pr = expFs as
 
 theorem strict_pArgsV (c : Bool) : Strict (pArgsV c) := by
   intro ts a r h
@@ -139,8 +139,12 @@ def normD (d : PDirective) : PDirective := ⟨d.name, normFs d.args⟩
 def finDs (ds : List PDirective) : Bool := ds.all finD
 def normDs (ds : List PDirective) : List PDirective := ds.map normD
 
+/-- what the tree builder returns: the stored form, or a number error for an infinite float literal -/
+def expD (d : PDirective) : Except PErr PDirective := if finD d then .ok (normD d) else .error .number
+def expDs (ds : List PDirective) : Except PErr (List PDirective) := if finDs ds then .ok (normDs ds) else .error .number
+
 def bDir (F : ValFam) : Bld PDirective := fun s₀ ps d =>
-  ∃ pr, ps = [pr] ∧ pr.rule = dName F ∧ (finD d = true → buildDirective (envOf s₀) pr = .ok (normD d))
+  ∃ pr, ps = [pr] ∧ pr.rule = dName F ∧ buildDirective (envOf s₀) pr = expD d
 
 theorem strict_qDirective (c : Bool) : Strict (qDirective c) :=
   strict_map (strict_seq (strict_punct '@') (mono_seq strict_pName.mono (mono_opt (strict_pArgsV c).mono)))
@@ -160,51 +164,79 @@ theorem reads_directive (F : ValFam) (hF : IsFam F) (L : Nat) :
   | none =>
     simp only [bOpt] at h4
     subst h4
-    intro _
-    simp only [buildDirective, Pair.inner, List.nil_append, List.append_nil, hn, normD, Option.getD, normFs]
+    simp [buildDirective, Pair.inner, hn, expD, finD, finFs, normD, normFs]
   | some as =>
     obtain ⟨pr, rfl, -, hb⟩ := h4
-    intro hf
-    have hb' := hb hf
-    simp only [buildDirective, Pair.inner, List.nil_append, List.cons_append, hn, hb', normD, Option.getD, Except.map]
+    cases hf : finFs as <;>
+      simp [buildDirective, Pair.inner, hn, hb, expD, finD, normD, expFs, hf, Except.map]
 
 -- ------------------------------------------------------------------ directives
 
 def bDirs (F : ValFam) : Bld (List PDirective) := fun s₀ ps ds =>
-  ∃ pr, ps = [pr] ∧ pr.rule = dsName F ∧ (finDs ds = true → pr.inner.mapM (buildDirective (envOf s₀)) = .ok (normDs ds))
+  ∃ pr, ps = [pr] ∧ pr.rule = dsName F ∧ pr.inner.mapM (buildDirective (envOf s₀)) = expDs ds
 
-theorem all2_single {α : Type} {R : List Char → Pair → α → Prop} {s₀ : List Char} {pss : List (List Pair)}
-    {xs : List α} (h : All2 (fun ps x => ∃ pr, ps = [pr] ∧ R s₀ pr x) pss xs) :
-    All2 (R s₀) pss.flatten xs := by
-  induction h with
+/-- the outcome of a builder step: `.ok x` when the condition holds, some error otherwise -/
+def Exp {α : Type} (r : Except PErr α) (c : Bool) (x : α) : Prop :=
+  (c = true → r = .ok x) ∧ (c = false → ∃ e, r = .error e)
+
+theorem Exp.of_ite {α : Type} {r : Except PErr α} {c : Bool} {x : α} (h : r = if c then .ok x else .error .number) :
+    Exp r c x := by
+  subst h
+  cases c <;> simp [Exp]
+
+theorem Exp.cast {α : Type} {r : Except PErr α} {c c' : Bool} {x x' : α} (h : Exp r c x) (hc : c = c') (hx : x = x') :
+    Exp r c' x' := by subst hc hx; exact h
+
+/-- the pairs of a repetition of one-pair elements, element by element -/
+theorem bMany_all2 {α : Type} {R : Pair → Prop} {Q : List Char → Pair → α → Prop} {s₀ : List Char} {ps : List Pair}
+    {xs : List α} (h : bMany (fun s₀ ps x => ∃ pr, ps = [pr] ∧ R pr ∧ Q s₀ pr x) s₀ ps xs) : All2 (Q s₀) ps xs := by
+  obtain ⟨pss, rfl, hall⟩ := h
+  induction hall with
   | nil => exact All2.nil
   | cons h1 _ ih =>
-    obtain ⟨pr, rfl, h1⟩ := h1
-    exact All2.cons h1 ih
+    obtain ⟨pr, rfl, -, hq⟩ := h1
+    exact All2.cons hq ih
 
-theorem mapM_all2 {α β : Type} {f : α → Except PErr β} {g : β → Bool} {nf : β → β} {l : List α} {xs : List β}
-    (h : All2 (fun a x => g x = true → f a = .ok (nf x)) l xs) (hg : xs.all g = true) :
-    l.mapM f = .ok (xs.map nf) := by
+/-- `mapM` over steps whose only error is the number error -/
+theorem mapM_expN {α β : Type} {f : α → Except PErr β} {c : β → Bool} {nf : β → β} {l : List α} {xs : List β}
+    (h : All2 (fun a x => f a = if c x then .ok (nf x) else .error .number) l xs) :
+    l.mapM f = if xs.all c then .ok (xs.map nf) else .error .number := by
   induction h with
   | nil => rfl
-  | cons h1 _ ih =>
-    simp only [List.all_cons, Bool.and_eq_true] at hg
-    simp [List.mapM_cons, h1 hg.1, ih hg.2, bind, Except.bind, pure, Except.pure]
+  | @cons a b as bs h1 _ ih =>
+    cases hc : c b <;> cases hcs : bs.all c <;>
+      simp [List.mapM_cons, h1, ih, hc, hcs, bind, Except.bind, pure, Except.pure]
+
+/-- `mapM` over steps with expected outcomes -/
+theorem mapM_exp {α β : Type} {f : α → Except PErr β} {c : β → Bool} {nf : β → β} {l : List α} {xs : List β}
+    (h : All2 (fun a x => Exp (f a) (c x) (nf x)) l xs) : Exp (l.mapM f) (xs.all c) (xs.map nf) := by
+  induction h with
+  | nil => exact ⟨fun _ => rfl, fun h => by simp at h⟩
+  | @cons a b as bs h1 _ ih =>
+    cases hc : c b with
+    | false =>
+      obtain ⟨e, he⟩ := h1.2 hc
+      refine ⟨fun h => by simp [hc] at h, fun _ => ⟨e, ?_⟩⟩
+      simp [List.mapM_cons, he, bind, Except.bind]
+    | true =>
+      have h1' := h1.1 hc
+      cases hcs : bs.all c with
+      | false =>
+        obtain ⟨e, he⟩ := ih.2 hcs
+        refine ⟨fun h => by simp [hc, hcs] at h, fun _ => ⟨e, ?_⟩⟩
+        simp [List.mapM_cons, h1', he, bind, Except.bind]
+      | true =>
+        have ih' := ih.1 hcs
+        refine ⟨fun _ => ?_, fun h => by simp [hc, hcs] at h⟩
+        simp [List.mapM_cons, h1', ih', bind, Except.bind, pure, Except.pure]
 
 theorem reads_directives (F : ValFam) (hF : IsFam F) (L : Nat) :
     Reads L (.ident (dsName F)) 52 (qDirectives F.const) (bDirs F) := by
   have hbody := Reads.rep1 (reads_directive F hF L) (strict_qDirective F.const) (by omega)
   have hrule := Reads.rule (dir_rules F hF).2 (r := dsRule F) hbody (K := 52) (by omega)
   refine Reads.weaken hrule ?_
-  rintro s₀ ps ds ⟨p, p1, inner, rfl, pss, rfl, hall⟩
-  refine ⟨_, rfl, rfl, fun hf => ?_⟩
-  have h2 : All2 (fun pr d => finD d = true → buildDirective (envOf s₀) pr = .ok (normD d)) pss.flatten ds := by
-    refine all2_single (R := fun s₀ pr d => finD d = true → buildDirective (envOf s₀) pr = .ok (normD d)) ?_
-    clear hf
-    induction hall with
-    | nil => exact All2.nil
-    | cons h1 _ ih =>
-      obtain ⟨pr, rfl, -, hb⟩ := h1
-      exact All2.cons ⟨pr, rfl, hb⟩ ih
-  exact mapM_all2 h2 hf
+  rintro s₀ ps ds ⟨p, p1, inner, rfl, hm⟩
+  refine ⟨_, rfl, rfl, ?_⟩
+  have h2 := bMany_all2 (Q := fun s₀ pr d => buildDirective (envOf s₀) pr = expD d) hm
+  exact mapM_expN (c := finD) (nf := normD) h2
 end AGV.Lemmas.PegX
